@@ -81,7 +81,7 @@ func checkC11(c *Ctx, r *Report) {
 		// OK status only past the table update
 		for _, ret := range returnsOf(f) {
 			if k, ok := constInt(retVal(ret, 0)); ok && k == constIntObj(c, "p2p/protocol/circuitv2/pb", "Status_OK") {
-				w, n := (&Cut{Fn: f, Target: isInstr(ret), Sep: inSet(ups)}).Run(c)
+				w, n := (&Cut{Fn: f, Target: isInstr(ret), EdgeCut: failCut(ret), Sep: inSet(ups)}).Run(c)
 				r1.Check(w == "", hr+": OK only after the reservation was recorded", instrPos(ret), n+1, "", "", w)
 			}
 		}
@@ -562,7 +562,7 @@ func checkC11(c *Ctx, r *Report) {
 		// success passes the append to every table that is keyed for this peer
 		for _, ret := range successReturns(f) {
 			for _, fld := range []string{"total", "ips"} {
-				w, n := (&Cut{Fn: f, Target: isInstr(ret), Sep: fieldWritePred(cT + "." + fld)}).Run(c)
+				w, n := (&Cut{Fn: f, Target: isInstr(ret), EdgeCut: failCut(ret), Sep: fieldWritePred(cT + "." + fld)}).Run(c)
 				r7.Check(w == "", "constraints.Reserve: success records the reservation in "+fld, instrPos(ret), n+1, "", "", w)
 			}
 		}
